@@ -14,7 +14,8 @@ def rdCsr : Rd (List (List (Nat × Float))) := do
     | n :: ns => l.take n :: split (l.drop n) ns
   return split (idx2.zip vals) lens
 
-def BIG : Float := 2147483647.0
+/-- "no extreme": larger than every entry (the code's sentinel; it was `RAND_MAX` until the fix recorded for C14) -/
+def BIG : Float := 1.7976931348623157e308
 
 def canonRows (rows : List (List (Nat × Float))) : List (List (Nat × Float)) :=
   rows.map fun r => (r.toArray.qsort fun a b => a.1 < b.1).toList
